@@ -56,7 +56,10 @@ def render(t, full=True):
         return "%s %s" % (t[1], s if a[0] == "lit" else "( %s )" % s)
     if k == "bin":
         if full:
-            return "( %s %s %s )" % (render(t[2], True), t[1], render(t[3], True))
+            rs = render(t[3], True)
+            if t[3][0] == "un":
+                rs = "( %s )" % rs
+            return "( %s %s %s )" % (render(t[2], True), t[1], rs)
         return render_min(t, 0)
     if k == "tern":
         if full:
@@ -65,21 +68,35 @@ def render(t, full=True):
     raise ValueError(t)
 
 
-def render_min(t, minp):
-    """minimal parentheses by C precedence (ternary = 0, unary/primary = 11)"""
+AMBIG = ("+", "-", "*", "&")     # operators that are both unary and binary for OCCA's expression parser
+
+
+def render_min(t, minp, safe=True):
+    """minimal parentheses by C precedence (ternary = 0, unary/primary = 11).
+    safe: keep parentheses around (a) a unary-operator expression that is the right operand of a binary + - * &
+    and (b) a conditional expression nested directly inside another one: OCCA's expression parser mis-parses
+    those two shapes (known findings parse_unary_after_binary, parse_nested_ternary), which would otherwise
+    mask the folder's own behaviour."""
     k = t[0]
     if k == "lit":
         return t[1]
     if k == "un":
         a = t[2]
-        s = render_min(a, 11)
+        s = render_min(a, 11, safe)
         return "%s %s" % (t[1], s)
     if k == "bin":
         p = PREC[t[1]]
-        s = "%s %s %s" % (render_min(t[2], p), t[1], render_min(t[3], p + 1))
+        r = t[3]
+        rs = render_min(r, p + 1, safe)
+        if safe and r[0] == "un" and t[1] in AMBIG:
+            rs = "( %s )" % rs
+        s = "%s %s %s" % (render_min(t[2], p, safe), t[1], rs)
         return "( %s )" % s if p < minp else s
     if k == "tern":
-        s = "%s ? %s : %s" % (render_min(t[1], 1), render_min(t[2], 0), render_min(t[3], 0))
+        def sub(x, mp):
+            xs = render_min(x, mp, safe)
+            return "( %s )" % xs if safe and x[0] == "tern" and not xs.startswith("(") else xs
+        s = "%s ? %s : %s" % (sub(t[1], 1), sub(t[2], 0), sub(t[3], 0))
         return "( %s )" % s if minp > 0 else s
     raise ValueError(t)
 
@@ -293,7 +310,13 @@ def gen_cases(rng, n, tier):
         depth = rng.choice([1, 2, 2, 3, 3, 4])
         kf = rng.random() < 0.06
         t = gen(rng, depth, kf)
-        out.append(render(t, full=(rng.random() < 0.7)))
+        x = rng.random()
+        if x < 0.68:
+            out.append(render(t, full=True))
+        elif x < 0.98:
+            out.append(render_min(t, 0, safe=True))
+        else:
+            out.append(render_min(t, 0, safe=False))
     return out
 
 
